@@ -51,6 +51,9 @@ class NotSent(Exception):
     pass
 
 
+STALE_KINDS = [k for k in KINDS if k.endswith('invalid-ke') or k in ('init-cookie', 'auth', 'delete-after-rekey')]
+
+
 def build_request(kind):
     """world in which the tracked request has just been emitted for the first time; returns (w, tracked)"""
     base = kind.replace('-invalid-ke', '').replace('-cookie', '')
@@ -148,7 +151,7 @@ def run_coincide(kind, k):
                 sad=sorted(a.kernel.sad), orphan=P.sad_diff(a) if a.alive else None, first=tr['data'], w=w)
 
 
-def run_retrans(kind, lost_req, lost_rep, ticks, horizon=45.0, oneway=False, outage=None):
+def run_retrans(kind, lost_req, lost_rep, ticks, horizon=45.0, oneway=False, outage=None, stale=False):
     """returns observations of one deterministic run.  oneway: everything A sends is lost while B keeps talking
     (its own DPD probes and their retransmissions reach A).  outage=(indices, exc): those of A's next sends (0 = the first
     retransmission) fail locally with that error."""
@@ -156,6 +159,13 @@ def run_retrans(kind, lost_req, lost_rep, ticks, horizon=45.0, oneway=False, out
     if outage:
         for i in outage[0]:
             w.step(('sendfail', 'A', i, outage[1]))
+    if stale:
+        # the network delivers second copies of everything B answered so far (the COOKIE / INVALID_KE_PAYLOAD reply, the
+        # IKE_SA_INIT response, the rekey response): they are stale, the outstanding request stays outstanding
+        for i, old in enumerate(list(w.sent_log)):
+            if old.sender == 'B' and old.data[19] & 0x20:
+                w.step(('redeliver', i))
+                w.step(('deliver', w.net[-1].id))
     if oneway:
         for i, sb in enumerate(w.endpoints['B'].controller.ike_sas):
             if sb.state == State.ESTABLISHED:
@@ -256,6 +266,10 @@ def retrans_cases():
                 yield (kind, tuple(sorted(lr)), tuple(sorted(lp)), tuple(fine), True)
         for k in range(0, MAXR):
             yield (kind, 'coincide', k)
+        if kind in STALE_KINDS:
+            for lr in subsets(2):
+                for lp in subsets(2):
+                    yield (kind, 'stale', lr, lp)
         # A's own sends fail (interface down, route gone): every subset of the retransmissions, and an outage that lasts
         for sub in subsets(MAXR - 1):
             yield (kind, 'outage', tuple(sorted(sub)), 'ENETUNREACH')
@@ -271,6 +285,18 @@ def retrans_cases():
 
 
 def work_retrans(case):
+    if case[1] == 'stale':
+        kind, _, lr, lp = case
+        try:
+            obs = run_retrans(kind, lr, lp, [1.0], stale=True)
+        except NotSent:
+            return [('request-never-sent', 'the %s request is not sent at all' % kind)], (0, False, False)
+        res = judge_retrans(kind, obs, True)
+        if kind == 'init-cookie':
+            # a second copy of the COOKIE reply is a challenge like the first: answering it once more with the very same
+            # request is not a timer retransmission, so the clauses on intervals and count do not apply to it
+            res = [r for r in res if r[0] not in ('intervals-decrease', 'too-many')]
+        return [(sig + ':stale-copies', msg) for sig, msg in res], (len(obs['tx']), obs['accepted_at'] is not None, bool(obs['still_held']))
     if case[1] == 'outage':
         kind, _, idxs, exc = case
         try:
@@ -619,6 +645,11 @@ def main():
         evaluations += 1
         outcomes[('retrans', case[0], outcome)] += 1
         for sig, msg in res:
+            if case[1] == 'stale':
+                ck.violation('retrans:%s:%s' % (sig, case[0]), '%s, request kind %s, second copies of all earlier answers arrive '
+                             'while the request is outstanding, lost request transmissions %s, lost replies %s' % (
+                                 msg, case[0], list(case[2]), list(case[3])), dict(part='retrans', case=case))
+                continue
             if case[1] == 'outage':
                 ck.violation('retrans:%s:%s:%s' % (sig, case[0], 'lasting' if len(case[2]) > 8 else 'sends-' + ''.join(map(str, case[2]))),
                              '%s, request kind %s; nothing A sends is answered and its sends number %s (0 = first retransmission) '
